@@ -119,6 +119,7 @@ func (g *pg) use(name string, depth int) gen.Val {
 		return gen.Call("lisp:map", gen.QS("list"), gen.S(name), gen.QL(gen.I(1), gen.I(2)))
 	case 10:
 		g.stats["shadow-use-set!"]++
+		g.stats["rebinds-language-name"]++ // without a lexical binding set! changes the package's
 		return gen.Call("lisp:progn", gen.Call("lisp:set!", gen.S(name), g.newVal()), gen.Call("lisp:list", gen.S(name)))
 	case 11:
 		g.stats["shadow-use-function-op"]++
@@ -292,6 +293,12 @@ func (g *pg) shadowForm(name, kind string, depth int) gen.Val {
 // Every name exported here is bound first: what in-package does with an
 // exported-but-unbound name of the language package is not documented.
 func (g *pg) langGrowForms(name string, export bool) []gen.Val {
+	if export && g.n(0, 9, "export-without-binding") == 0 {
+		// the draw asks for (export 'NAME) of a name the language package does
+		// not bind: excluded (see NOTES.md, candidate defect: in-package
+		// ignores the failure of its import); the name is bound first as usual
+		g.stats["excluded/language-export-of-unbound-name"]++
+	}
 	forms := []gen.Val{gen.Call("lisp:in-package", gen.QS("lisp"))}
 	switch g.n(0, 3, "lang-def") {
 	case 0, 1:
@@ -364,6 +371,7 @@ func (g *pg) lateRefs(name string) []gen.Val {
 // it and qualified references see it; lexical bindings still come first.
 func (g *pg) rebindWide() gen.Val {
 	g.stats["wide-rebind"]++
+	g.stats["rebinds-language-name"]++
 	name, kind := g.wideName()
 	g.stats["wide-rebind-kind/"+kind]++
 	var st gen.Val
@@ -408,5 +416,50 @@ func (g *pg) hostVisit(depth int) gen.Val {
 	}
 	g.curGuess = back
 	items = append(items, gen.Call("lisp:in-package", gen.QS(back)))
+	return gen.L(items...)
+}
+
+// callback: an ANONYMOUS function (a lambda, a flet / labels local, a closure)
+// written in package Q is handed to a function of package P, which calls it:
+// its body runs with Q current, whatever is current at the call.
+func (g *pg) callback() gen.Val {
+	g.stats["callback-across-packages"]++
+	P, Q := g.pkg(), g.pkg()
+	caller := g.sym()
+	seen := g.sym()
+	if seen == caller {
+		seen = "a"
+		if caller == "a" {
+			seen = "b"
+		}
+	}
+	cbBody := gen.Call("lisp:list", gen.S("y"), gen.S(seen))
+	var call gen.Val
+	switch g.n(0, 4, "callback-kind") {
+	case 0, 1:
+		call = gen.L(gen.S(P+":"+caller), gen.L(gen.S("lisp:lambda"), gen.L(gen.S("y")), cbBody))
+	case 2:
+		call = gen.L(gen.S("lisp:flet"), gen.L(gen.L(gen.S("loc"), gen.L(gen.S("y")), cbBody)), gen.L(gen.S(P+":"+caller), gen.S("loc")))
+	case 3:
+		call = gen.L(gen.S("lisp:labels"), gen.L(gen.L(gen.S("loc"), gen.L(gen.S("y")), cbBody)), gen.L(gen.S(P+":"+caller), gen.S("loc")))
+	default:
+		// the function is handed over through map: called by a BUILTIN that
+		// was called from P
+		call = gen.L(gen.S(P+":"+caller), gen.L(gen.S("lisp:lambda"), gen.L(gen.S("y")),
+			gen.Call("lisp:map", gen.QS("list"), gen.L(gen.S("lisp:lambda"), gen.L(gen.S("z")), gen.Call("lisp:list", gen.S("z"), gen.S(seen))), gen.QL(gen.I(7)))))
+	}
+	items := []gen.Val{gen.S("lisp:progn"),
+		gen.Call("lisp:in-package", gen.QS(P)),
+		g.wrap(gen.L(gen.S("lisp:defun"), gen.S(caller), gen.L(gen.S("x")), gen.Call("lisp:list", gen.Call("lisp:funcall", gen.S("x"), gen.I(1)), gen.S(seen)))),
+	}
+	if g.n(0, 1, "bind-in-p") == 0 {
+		items = append(items, g.wrap(gen.Call("lisp:set", gen.QS(seen), g.newVal())))
+	}
+	items = append(items, gen.Call("lisp:in-package", gen.QS(Q)))
+	if g.n(0, 2, "bind-in-q") != 0 {
+		items = append(items, g.wrap(gen.Call("lisp:set", gen.QS(seen), g.newVal())))
+	}
+	g.curGuess = Q
+	items = append(items, call)
 	return gen.L(items...)
 }
